@@ -47,8 +47,14 @@ fn on_alloc(sz: usize) {
         }
         c.set(v);
     });
+    // process-wide accounting only when a budget is set (sweep workers): the shared counter would otherwise
+    // be a contention point for the 16 enumeration threads
+    let budget = BUDGET.load(Ordering::Relaxed);
+    if budget == u64::MAX {
+        return;
+    }
     let g = GLOBAL_LIVE.fetch_add(sz as i64, Ordering::Relaxed) + sz as i64;
-    if g > 0 && (g as u64) > BUDGET.load(Ordering::Relaxed) {
+    if g > 0 && (g as u64) > budget {
         // cannot unwind out of an allocator: leave at once with the distinguished code
         unsafe { libc::_exit(EXIT_MEMBUDGET) }
     }
@@ -60,7 +66,9 @@ fn on_free(sz: usize) {
         v.live -= sz as i64;
         c.set(v);
     });
-    GLOBAL_LIVE.fetch_sub(sz as i64, Ordering::Relaxed);
+    if BUDGET.load(Ordering::Relaxed) != u64::MAX {
+        GLOBAL_LIVE.fetch_sub(sz as i64, Ordering::Relaxed);
+    }
 }
 
 unsafe impl GlobalAlloc for Counting {
